@@ -1438,6 +1438,13 @@ init_decompression(struct archive_read *a, struct _7zip *zip,
 }
 
 static int
+is_bcj_filter(unsigned long codec)
+{
+	return (codec == _7Z_X86 || codec == _7Z_ARM || codec == _7Z_ARM64 ||
+	    codec == _7Z_SPARC || codec == _7Z_POWERPC);
+}
+
+static int
 decompress(struct archive_read *a, struct _7zip *zip,
     void *buff, size_t *outbytes, const void *b, size_t *used)
 {
@@ -1454,7 +1461,7 @@ decompress(struct archive_read *a, struct _7zip *zip,
 	t_next_in = b;
 	t_next_out = buff;
 
-	if (zip->codec != _7Z_LZMA2 && zip->codec2 == _7Z_X86) {
+	if (zip->codec != _7Z_LZMA2 && is_bcj_filter(zip->codec2)) {
 		int i;
 
 		/* Do not copy out the BCJ remaining bytes when the output
@@ -1709,9 +1716,28 @@ decompress(struct archive_read *a, struct _7zip *zip,
 	 * Decord BCJ.
 	 */
 	if (zip->codec != _7Z_LZMA2) {
-		if (zip->codec2 == _7Z_X86) {
-			size_t l = x86_Convert(zip, buff, *outbytes);
+		if (is_bcj_filter(zip->codec2)) {
+			size_t l;
 
+			if (zip->codec2 == _7Z_X86)
+				l = x86_Convert(zip, buff, *outbytes);
+			else if (zip->codec2 == _7Z_ARM)
+				l = arm_Convert(zip, buff, *outbytes);
+			else if (zip->codec2 == _7Z_ARM64)
+				l = arm64_Convert(zip, buff, *outbytes);
+			else if (zip->codec2 == _7Z_SPARC)
+				l = sparc_Convert(zip, buff, *outbytes);
+			else
+				l = powerpc_Convert(zip, buff, *outbytes);
+
+			/*
+			 * The filters work on whole instructions: keep what
+			 * is left over for the next call instead of handing
+			 * it out unconverted (or, as used to happen for the
+			 * fixed-width filters, dropping it).  How the output
+			 * is cut into pieces depends on the block size of the
+			 * byte source.
+			 */
 			zip->odd_bcj_size = *outbytes - l;
 			if (zip->odd_bcj_size > 0 && zip->odd_bcj_size <= 4 &&
 		    	o_avail_in && ret != ARCHIVE_EOF) {
@@ -1720,14 +1746,6 @@ decompress(struct archive_read *a, struct _7zip *zip,
 				*outbytes = l;
 			} else
 				zip->odd_bcj_size = 0;
-		} else if (zip->codec2 == _7Z_ARM) {
-			*outbytes = arm_Convert(zip, buff, *outbytes);
-		} else if (zip->codec2 == _7Z_ARM64) {
-			*outbytes = arm64_Convert(zip, buff, *outbytes);
-		} else if (zip->codec2 == _7Z_SPARC) {
-			*outbytes = sparc_Convert(zip, buff, *outbytes);
-		} else if (zip->codec2 == _7Z_POWERPC) {
-			*outbytes = powerpc_Convert(zip, buff, *outbytes);
 		}
 	}
 
@@ -3348,7 +3366,7 @@ extract_pack_stream(struct archive_read *a, size_t minimum)
 		if (zip->uncompressed_buffer_bytes_remaining ==
 		    zip->uncompressed_buffer_size)
 			break;
-		if (zip->codec2 == _7Z_X86 && zip->odd_bcj_size &&
+		if (is_bcj_filter(zip->codec2) && zip->odd_bcj_size &&
 		    zip->uncompressed_buffer_bytes_remaining + 5 >
 		    zip->uncompressed_buffer_size)
 			break;
